@@ -273,12 +273,12 @@ pub fn gen_case(seed: u64, k: u64) -> Case {
     }
     if rng.chance(1, 12) {
         // output side: the target directory / output files cannot be written
-        let path = disk::normalize(&Path::new(WS).join(rng.pick_str(&["target/main.prg", "target/main.bin", "target/main.lst", "target/main.vs"])));
+        let path = disk::normalize(&Path::new(WS).join(rng.pick_str(&["target/main.prg", "target/main.bin", "target/main.lst", "target/main.vs", "target/a.bin", "target/b.bin", "target/foo.bin"])));
         faults.push(Fault { path, nth: 0, op: Op::Write, kind: if rng.chance(1, 2) { FaultKind::NoSpace } else { FaultKind::PermissionDenied } });
     }
     if rng.chance(1, 12) {
         // the output file can be created, but a write to it fails (disk full, I/O error)
-        let path = disk::normalize(&Path::new(WS).join(rng.pick_str(&["target/main.prg", "target/main.bin", "target/main.lst", "target/main.vs"])));
+        let path = disk::normalize(&Path::new(WS).join(rng.pick_str(&["target/main.prg", "target/main.bin", "target/main.lst", "target/main.vs", "target/a.bin", "target/b.bin", "target/foo.bin"])));
         faults.push(Fault { path, nth: *rng.pick(&[0u32, 1, 2]), op: Op::WriteData, kind: if rng.chance(1, 2) { FaultKind::NoSpace } else { FaultKind::IoError } });
     }
     let pipeline = rng.pick_str(PIPELINES).to_string();
